@@ -141,23 +141,23 @@ def _is_input_array(node) -> bool:
     return t.replace('"', "'").endswith("['candles']")
 
 
-def check_session_rules(repo, rep):
+def check_session_rules(repo, rep, tier="quick"):
     """C02-R1 / R6 / R7 on abstractly interpreted mini sessions (props/sessions.py)"""
     from props import sessions as S
     rep.rule("C02-R1", "both simulator functions interpreted whole on mini sessions (one / two symbols, data symbol, 1m / 3m / 5m / 15m routes, "
                        "lengths that are not a multiple of the timeframe; matcher, order store, strategies and gap normalisation recorded): "
                        "the candle handed to the matcher for minute m of a symbol is that symbol's input candle m, gap-normalised exactly "
                        "once against candle m-1 of the same symbol (m > 0) - also inside a fast-mode chunk")
-    S.check_fed_candles(repo, rep, "C02-R1")
+    S.check_fed_candles(repo, rep, "C02-R1", cfgs=S.for_tier(tier))
     rep.rule("C02-R6", "same sessions: after every minute the simulator steps over (and every chunk end) nothing of the end-of-minute "
                        "protocol happens before every symbol has been matched; then per route the strategy executes iff its candle "
                        "closed and the route's active orders are pruned; then the pending MARKET orders are executed (a MARKET order is "
                        "filled before any later candle is processed); after the last minute every _terminate() is followed by a flush")
-    S.check_protocol(repo, rep, "C02-R6")
+    S.check_protocol(repo, rep, "C02-R6", cfgs=S.for_tier(tier))
     rep.rule("C02-R7", "same sessions: every minute of every symbol is fed to the matcher exactly once, in order, and with several symbols "
                        "minute-major - every symbol's minute m before any symbol's minute m+1 (an order that a hook of symbol A creates "
                        "for symbol B at minute m may only be matched against B's candles from m on)")
-    S.check_cover(repo, rep, "C02-R7")
+    S.check_cover(repo, rep, "C02-R7", cfgs=S.for_tier(tier))
 
 
 # ------------------------------------------------------------------ matching loop (shared exhaustive runs)
@@ -423,7 +423,7 @@ def run(repo: Repo, rep, tier: str):
     rep.assume("hooks, exchange ledgers and candle storage are abstract event sinks in the matching-loop runs")
     rep.guarded(check_includes, repo, rep)
     rep.guarded(check_jump_fix, repo, rep)
-    rep.guarded(check_session_rules, repo, rep)
+    rep.guarded(check_session_rules, repo, rep, tier)
     rep.guarded(check_match_loop, repo, rep, tier)
     rep.guarded(check_fast_chunk, repo, rep, tier)
     rep.guarded(check_fast_one_candle, repo, rep, tier)
